@@ -1,5 +1,5 @@
 """Random programs over the syntax of coq/ND/Hand/Prog.v, as prefix lists of integers.
-   [0,i] variable  [1,c] constant  [2,u,<a>] unary  [3,b,<a>,<c>] binary  [4,b,c,<a>] scalar right operand  [5,n,<a>] powi  [6,<a>,<body>] let"""
+   [0,i] variable  [1,c] constant  [2,u,<a>] unary  [3,b,<a>,<c>] binary  [4,b,c,<a>] scalar right operand (b + 4: the same operator in its compound-assignment form)  [5,n,<a>] powi  [6,<a>,<body>] let"""
 import math
 
 U_NEG = 0
@@ -25,7 +25,7 @@ def gen(rng, nvars, depth, rational=False, allow_let=True):
             return [6] + a + body
         if r < 52:
             b = rng.below(4) if not rational else rng.choice([0, 1, 2])
-            return [3, b] + go(d - 1, nv) + go(d - 1, nv)
+            return [3, b + (4 if rng.below(4) == 0 else 0)] + go(d - 1, nv) + go(d - 1, nv)
         if r < 64:
             if rational:
                 b = rng.below(4)
@@ -33,7 +33,7 @@ def gen(rng, nvars, depth, rational=False, allow_let=True):
             else:
                 b = rng.below(4)
                 c = rng.choice([1, 2, 3, -1, -2, 4, 7])
-            return [4, b, c] + go(d - 1, nv)
+            return [4, b + (4 if rng.below(4) == 0 else 0), c] + go(d - 1, nv)
         if r < 74:
             n = rng.choice([0, 1, 2, 3]) if rational else rng.choice([0, 1, 2, 3, 4, 5, -1, -2, -3, 7])
             return [5, n] + go(d - 1, nv)
@@ -137,7 +137,7 @@ def real_eval(code, xs):
             u = code[pos[0]]; pos[0] += 1
             r = fn(min(u, 22), go())
         elif t in (3, 4):
-            b = code[pos[0]]; pos[0] += 1
+            b = code[pos[0]] % 4; pos[0] += 1
             if t == 4:
                 c = float(code[pos[0]]); pos[0] += 1
                 a = go()
